@@ -4,30 +4,51 @@ Stub harness (harness/embed_stub): the repository's real src/cffi/_embedding.h
 is compiled twice (two translation units = two embedded libraries with private
 static state) against a stubbed CPython API (GIL as a real recursive mutex,
 Py_InitializeEx counter, PyCapsule_Type shared by both units, scripted init
-code that may fail or call back into its own / the other library).  Wrapper
-macros defined before the include log and delay every CAS and mutex operation
-of the header.  One process per scenario; an event log is checked offline:
-Py_InitializeEx <= 1, init code per library <= 1, no extern-Python function of
-a library runs on another thread before that library's init finished, every
-call returns the right value (0 after a failed init), and a logical deadlock
-detector (all unfinished threads recorded as waiting + no progress).
-The same harness is also built with TSan (observation only: the header's
-unsynchronised fast-path reads are intentional).
-Real-process part: three libraries built with ffi.embedding_api() against the
-real libpython (slow init code; one failing), first calls raced by 2-10 threads
-of a C program; monitors: results, init-code count from a log file, stderr.
+code that may call back into its own / the other library -- an extern-Python
+function or cffi_start_python() -- and may fail afterwards; Python possibly
+initialized by the host already).  Wrapper macros defined before the include
+log and delay every CAS and mutex operation (and the lazy mutex creation) of
+the header.  Each library exports extern-Python functions with results of
+4 / 1 / 8 / 24 bytes (arguments and results without zero bytes) and a wrapper
+of cffi_start_python().  One process per scenario; an event log is checked
+offline: Py_InitializeEx <= 1 (0 in an initialized host), init code per library
+<= 1, no extern-Python function of a library runs on another thread -- and
+cffi_start_python() does not return 0 to another thread -- before that
+library's init finished, every call returns the right bytes (all zero after a
+failed init, cffi_start_python() -1), no GIL misuse of the stubbed API, and a
+logical deadlock / livelock detector (all unfinished threads recorded as
+waiting or spinning for > 1 s of CPU time without an event + no progress).
+Schedules: random delays (normal / heavy), all threads released by a barrier,
+stall points (one thread pauses at its n-th delay point until the others have
+logged k events), and directed scenarios (thread 0 goes first and is held in
+Py_InitializeEx / at the start of the init code / inside or after the call the
+init code makes, while the other threads make their first call).
+The same harness is also built with TSan (libraries instrumented only;
+observation only: the header's unsynchronised fast-path reads are intentional).
+Real-process part: four libraries built with ffi.embedding_api() against the
+real libpython (slow init code; one failing; one whose init code calls its own
+exported function), first calls raced by 2-10 threads of a C program, all at
+once or arriving late / exactly after the init code's own call; monitors:
+results, init-code count from a log file, stderr.
 """
-import os, sys, subprocess, re
+import os, sys, subprocess, re, time
 import concurrent.futures as cf
 from vlib import core, build
 
-RULE = ("case = one scenario: 1-3 threads x 1-2 libraries x per-library init behaviour {ok, fails, "
-        "calls its own extern function, calls the other library} x 1-3 first calls per thread, "
-        "with PRNG-driven sched_yield/usleep between every CAS / mutex operation of the real "
-        "header (normal and heavy-delay mode); distinct = distinct interleaving signature (hash "
-        "of the (thread, library, event) sequence); non-trivial = at least 2 threads")
+RULE = ("case = one scenario: 1-3 threads x 1-2 libraries x per-library init behaviour {no call out, "
+        "calls its own library, calls the other library} x {ok, fails afterwards} x {Python not yet "
+        "initialized, already initialized by the host} x 1-3 operations per thread, operation = an "
+        "extern-Python function with a 4/1/8/24-byte result (arguments without zero bytes) or "
+        "cffi_start_python(), also as the call made by the init code; PRNG-driven sched_yield/"
+        "usleep between every CAS / mutex operation of the real header (normal and heavy-delay "
+        "mode); directed scenarios: thread 0 goes first and is held inside Py_InitializeEx / at "
+        "the start of the init code / inside or after the call made by the init code until the "
+        "other threads have entered their first operation; distinct = distinct interleaving "
+        "signature (hash of the (thread, library, event) sequence); non-trivial = at least 2 threads")
 ASSUMPTIONS = ["the CPython API is stubbed: the GIL is a recursive mutex, Py_InitializeEx takes it, PyEval_SaveThread releases it, a call made by init code into a library releases the GIL around the call (as cffi does)",
-               "init-code cycles (A's init calls B whose init calls A) and calls made from inside *failing* init code are not generated",
+               "init-code cycles (A's init calls B whose init calls A) are not generated; the result of a call made from inside init code is not judged (only that it terminates)",
+               "cffi_start_python() is judged by its documented result (0 / -1) and must not return 0 to another thread before the init code finished",
+               "a PyEval_SaveThread by a thread that does not hold the GIL and a PyGILState_Ensure before Py_InitializeEx count as non-terminating calls (fatal errors in CPython)",
                "all schedules cannot be enumerated by runtime monitoring; the PyPy and Windows sections of the header are not compiled"]
 
 
@@ -42,7 +63,10 @@ def build_harness(ctx, san=None):
                       ('lib1', ['-DLIBID=1', os.path.join(src, 'lib.c')]),
                       ('stubs', [os.path.join(src, 'stubs.c')])):
         o = os.path.join(ctx.tmp, '%s%s.o' % (tag, san or ''))
-        r = subprocess.run(cc + ['-c'] + inc + args + ['-o', o], stdout=subprocess.PIPE,
+        # sanitizer builds instrument the two libraries (the code under observation) only:
+        # the harness's own volatile bookkeeping would flood the report stream
+        ccx = [a for a in cc if not a.startswith('-fsanitize=')] if tag == 'stubs' else cc
+        r = subprocess.run(ccx + ['-c'] + inc + args + ['-o', o], stdout=subprocess.PIPE,
                            stderr=subprocess.STDOUT)
         if r.returncode:
             raise core.Inconclusive('harness does not compile: ' + r.stdout.decode()[-1500:])
@@ -63,18 +87,27 @@ def run_driver(exe, first, count, heavy, env=None):
     return p.stdout.decode(errors='replace').splitlines(), p.stderr.decode(errors='replace')
 
 
+KIND_NAMES = ('call_result_4_bytes', 'call_result_1_byte', 'call_result_8_bytes',
+              'call_result_24_bytes', 'cffi_start_python')
+GATE_NAMES = {1: 'in_Py_InitializeEx', 2: 'at_init_code_start', 3: 'inside_init_codes_own_call',
+              4: 'after_init_codes_own_call'}
+
+
 def run(ctx):
+    t0 = time.time()
     exe = build_harness(ctx)
-    n = ctx.scale(240, 40000)
+    n = ctx.scale(336, 40000)
     base = 1 + (ctx.seed * 1000003) % (2 ** 30)
     chunks = []
-    per = max(50, n // 16)
-    for i in range(0, n, per):
-        chunks.append((base + i, min(per, n - i), 1 if (i // per) % 4 == 3 else 0))
+    per = max(14, n // 48)
+    # mode bit 0: heavy delays, bit 1: directed (late first calls while the init is held)
+    modes = [0, 2, 0, 3, 2, 1, 0, 2, 2, 1, 0, 3]
+    for j, i in enumerate(range(0, n, per)):
+        chunks.append((base + i, min(per, n - i), modes[j % len(modes)]))
     sigs = set()
     with cf.ThreadPoolExecutor(8) as ex:
         results = list(ex.map(lambda c: (c, run_driver(exe, *c)), chunks))
-    for (first, count, heavy), (lines, err) in results:
+    for (first, count, mode), (lines, err) in results:
         if lines is None:
             ctx.inconclusive('driver timed out')
             continue
@@ -85,34 +118,81 @@ def run(ctx):
                 continue
             seen += 1
             seed, verdict, rest = int(m.group(1)), m.group(2), m.group(3)
-            kv = dict(re.findall(r'(\w+)=(\S+)', rest))
-            nthreads = int(kv.get('nthreads', 1))
-            sig = kv.get('sig', str(seed))
-            sigs.add(sig)
-            ctx.case((kv.get('nthreads'), kv.get('nlibs'), kv.get('beh'), sig),
-                     nontrivial=nthreads >= 2,
-                     sample={'seed': seed, 'threads': nthreads, 'libs': kv.get('nlibs'),
-                             'behaviours': kv.get('beh'), 'events': kv.get('events'),
-                             'verdict': verdict})
-            ctx.count('scenarios')
-            ctx.count('scenarios_heavy_delay' if heavy else 'scenarios_normal_delay')
-            ctx.count('beh_' + kv.get('beh', '?'))
-            if verdict == 'OK':
+            if verdict == 'SKIPPED':
+                ctx.count('scenarios_skipped_after_two_hangs')
                 continue
             if verdict == 'WATCHDOG':
                 ctx.inconclusive('scenario %d: wall-clock watchdog (inconclusive)' % seed)
                 continue
-            ctx.violation(verdict.replace('VIOLATION:', ''), 'scenario %d (heavy=%d): %s' %
-                          (seed, heavy, rest.strip()), {'seed': seed, 'heavy': heavy})
+            kv = dict(re.findall(r'(\w+)=(\S+)', rest))
+            nthreads = int(kv.get('nthreads', 1))
+            sig = kv.get('sig', str(seed))
+            sigs.add(sig)
+            ctx.case((kv.get('nthreads'), kv.get('nlibs'), kv.get('beh'), kv.get('pre'),
+                      kv.get('gate'), sig),
+                     nontrivial=nthreads >= 2,
+                     sample={'seed': seed, 'mode': mode, 'threads': nthreads, 'libs': kv.get('nlibs'),
+                             'behaviours': kv.get('beh'), 'python_preinitialized': kv.get('pre'),
+                             'gate': kv.get('gate'), 'events': kv.get('events'),
+                             'verdict': verdict})
+            ctx.count('scenarios')
+            ctx.count('scenarios_heavy_delay' if mode & 1 else 'scenarios_normal_delay')
+            ctx.count('beh_' + kv.get('beh', '?'))
+            behs = kv.get('beh', '').split(',')[:int(kv.get('nlibs', 1))]
+            inner = kv.get('inner', '-1,-1').split(',')
+            for b, ik in zip(behs, inner):
+                if b in ('SF', 'OF'):
+                    ctx.count('lib_init_calls_out_then_fails')
+                if b[:1] in 'SO' and ik == '4':
+                    ctx.count('lib_init_calls_cffi_start_python')
+                if b[:1] in 'SO' and ik in ('1', '2', '3'):
+                    ctx.count('lib_init_calls_non_int_function')
+            if 'O' in behs[0][:1] + behs[-1][:1] and any('F' in b for b in behs):
+                ctx.count('scenarios_init_calls_other_lib_and_some_init_fails')
+            if kv.get('bar') == '1':
+                ctx.count('scenarios_all_threads_start_at_barrier')
+            st = kv.get('stalls', '0/0').split('/')
+            if int(st[1]):
+                ctx.count('scenarios_with_stall_points')
+                ctx.count('stalls_taken', int(st[0]))
+            if kv.get('pre') == '1':
+                ctx.count('scenarios_python_preinitialized_by_host')
+            if mode & 2:
+                ctx.count('scenarios_directed')
+                g = int(kv.get('gate', 0))
+                if int(kv.get('hit', 0)):
+                    ctx.count('directed_held_' + GATE_NAMES.get(g, '?'))
+                    ctx.count('directed_hold_ended_%s' % {1: 'all_others_blocked', 2: 'grace_period',
+                                                          3: 'bound'}.get(int(kv.get('hold', 0)), 'early'))
+                else:
+                    ctx.count('directed_gate_not_reached')
+            late = int(kv.get('late', 0))
+            ctx.count('first_calls_entered_while_init_in_progress', late)
+            if late:
+                ctx.count('scenarios_with_call_entered_while_init_in_progress')
+                if kv.get('beh', '')[:1] in 'SO' or kv.get('beh', '').split(',')[-1][:1] in 'SO':
+                    ctx.count('scenarios_with_call_entered_while_calling_out_init_in_progress')
+            for name, c in zip(KIND_NAMES, kv.get('kinds', '').split(',')):
+                ctx.count('op_' + name, int(c or 0))
+            if verdict == 'OK':
+                continue
+            ctx.violation(verdict.replace('VIOLATION:', ''), 'scenario %d (mode=%d): %s' %
+                          (seed, mode, rest.strip()), {'seed': seed, 'heavy': mode})
         if seen != count:
             ctx.inconclusive('driver reported %d of %d scenarios' % (seen, count))
     ctx.extra['distinct_interleaving_signatures'] = len(sigs)
+    t1 = time.time()
     real_process_part(ctx)
+    t2 = time.time()
+    ctx.extra['phase_wall_s'] = {'stub_scenarios': round(t1 - t0, 1), 'real_process': round(t2 - t1, 1)}
+    ctx.note('the TSan build instruments the two libraries only (observation only)')
     # TSan build: observations only
     try:
         texe = build_harness(ctx, 'thread')
-        env = dict(os.environ, TSAN_OPTIONS='halt_on_error=0:exitcode=0', EMBED_STUB_STDERR='1')
-        lines, err = run_driver(texe, base, ctx.scale(20, 400), 0, env)
+        env = dict(os.environ, TSAN_OPTIONS='halt_on_error=0:exitcode=0:symbolize=0', EMBED_STUB_STDERR='1')
+        lines, err = run_driver(texe, base, ctx.scale(4, 200), 0, env)
+        l2, e2 = run_driver(texe, base + 5000, ctx.scale(4, 200), 2, env)
+        lines, err = (lines or []) + (l2 or []), err + e2
         kinds = {}
         for kind, frame, block in core.split_reports(err):
             key = '%s@%s' % (kind, frame)
@@ -123,15 +203,18 @@ def run(ctx):
             if ' VIOLATION:' in line:
                 m = re.match(r'S (\d+) (\S+)(.*)', line)
                 ctx.violation(m.group(2).replace('VIOLATION:', ''), 'TSan build, scenario %s: %s' %
-                              (m.group(1), m.group(3).strip()), {'seed': int(m.group(1)), 'heavy': 0})
+                              (m.group(1), m.group(3).strip()),
+                              {'seed': int(m.group(1)), 'heavy': 2 if int(m.group(1)) >= base + 5000 else 0})
     except core.Inconclusive as e:
         ctx.note('TSan build of the harness unavailable: %s' % str(e)[:200])
 
 
 def real_process_part(ctx):
-    """The real thing: three libraries built with ffi.embedding_api() against the
-    real libpython (two with slow init code, one whose init code raises), first
-    calls raced by 2-10 threads of a C program that dlopen()s them."""
+    """The real thing: four libraries built with ffi.embedding_api() against the
+    real libpython (two with slow init code, one whose init code raises, one whose
+    init code calls its own exported function through C), first calls raced by
+    2-10 threads of a C program that dlopen()s them (all at once, or the threads
+    other than thread 0 arriving 0-175 ms late)."""
     import glob, shutil
     d = os.path.join(ctx.tmp, 'real')
     os.makedirs(d, exist_ok=True)
@@ -144,31 +227,40 @@ def real_process_part(ctx):
                        stderr=subprocess.STDOUT, timeout=900)
     r2 = subprocess.run(['gcc', 'drv.c', '-o', 'drv', '-ldl', '-lpthread'], cwd=d,
                         stdout=subprocess.PIPE, stderr=subprocess.STDOUT)
-    libs = [glob.glob(os.path.join(d, n + '*.so')) for n in ('_c28A', '_c28B', '_c28F')]
+    libs = [glob.glob(os.path.join(d, n + '*.so')) for n in ('_c28A', '_c28B', '_c28F', '_c28R')]
     if r.returncode or r2.returncode or not all(libs):
         ctx.note('real-process part not run: build failed: ' + (r.stdout + r2.stdout).decode()[-300:])
         ctx.count('real_process_build_failed')
         return
     env['PYTHONPATH'] = env['PYTHONPATH'] + os.pathsep + d
     rng = ctx.rng('real')
-    for i in range(ctx.scale(6, 150)):
+    hangs = 0
+    for i in range(ctx.scale(8, 150)):
         if os.path.exists(log):
             os.unlink(log)
         nth, nc, seed = rng.choice([2, 3, 5, 10]), rng.choice([1, 2, 4]), rng.getrandbits(20)
+        late = (0, 2, 1, 2)[i % 4]
         try:
-            p = subprocess.run(['./drv', libs[0][0], libs[1][0], libs[2][0], str(seed), str(nth),
-                                str(nc)], cwd=d, env=env, stdout=subprocess.PIPE,
-                               stderr=subprocess.PIPE, timeout=300)
+            p = subprocess.run(['./drv', libs[0][0], libs[1][0], libs[2][0], libs[3][0], str(seed),
+                                str(nth), str(nc), str(late), log], cwd=d, env=env, stdout=subprocess.PIPE,
+                               stderr=subprocess.PIPE, timeout=ctx.scale(90, 300))
         except subprocess.TimeoutExpired:
             ctx.inconclusive('real-process scenario: wall-clock watchdog (inconclusive)')
+            hangs += 1
+            if hangs >= 2:
+                ctx.note('real-process part stopped after two wall-clock watchdogs')
+                break
             continue
-        case = {'real': True, 'seed': seed, 'threads': nth, 'calls': nc}
+        case = {'real': True, 'seed': seed, 'threads': nth, 'calls': nc, 'late': late}
         out = p.stdout.decode(errors='replace')
         rows = [list(map(int, l.split()[1:])) for l in out.splitlines() if l.startswith('R ')]
-        ctx.case(('real', seed, nth, nc), nontrivial=True,
+        ctx.case(('real', seed, nth, nc, late), nontrivial=True,
                  sample={'real_process': True, 'threads': nth, 'calls_per_thread': nc,
+                         'late_arrivals': late,
                          'results': rows[:6]})
         ctx.count('real_process_scenarios')
+        ctx.count('real_process_scenarios_%s' % ('all_threads_at_once', 'late_arrivals',
+                                                 'late_arrivals_into_lib_whose_init_calls_itself')[late])
         if p.returncode != 0 or len(rows) != nth * nc:
             ctx.violation('real-process:crash-or-missing-calls', 'rc=%s, %d of %d results; stderr '
                           '%s' % (p.returncode, len(rows), nth * nc,
@@ -181,14 +273,16 @@ def real_process_part(ctx):
                     'real-process:nonzero-result-after-failed-init' if w == 2 else
                     'real-process:wrong-result')
                 ctx.violation(mech, 'thread %d call %d of lib %s returned %d, expected %d' %
-                              (t, k, 'ABF'[w], res, exp), case)
+                              (t, k, 'ABFR'[w], res, exp), case)
         used = set(w for t, k, w, res in rows)
         lines = open(log).read().split('\n') if os.path.exists(log) else []
-        for w, name in enumerate(('_c28A', '_c28B', '_c28F')):
+        for w, name in enumerate(('_c28A', '_c28B', '_c28F', '_c28R')):
             n = lines.count('init-start ' + name)
             if n > 1 or (w in used and n != 1):
                 ctx.violation('real-process:init-code-ran-%s' % ('twice' if n > 1 else 'never'),
                               'init code of %s ran %d times' % (name, n), case)
+        if 3 in used:
+            ctx.count('real_process_init_code_called_own_function')
         if 2 in used and b'initialization code failed' not in p.stderr:
             ctx.violation('real-process:failed-init-not-reported', 'no "initialization code '
                           'failed" message for calls into the failing library', case)
